@@ -99,14 +99,14 @@ type Op struct {
 
 type Case struct{ Ops []Op }
 
-var kinds = []string{"addValue", "addParam", "addF2", "addF3", "addFA", "connect", "connect", "connect", "disconnect", "set", "set", "read", "read", "read", "state"}
+var kinds = []string{"addValue", "addParam", "addF2", "addF3", "addFA", "connect", "connect", "connect", "connect", "disconnect", "set", "set", "set", "read", "read", "read", "read", "state"}
 
 func genCase(t *rapid.T) Case {
 	min := rapid.IntRange(5, 40).Draw(t, "minSteps")
 	// a prefix that builds a small graph, so that connects and reads have something to work on
 	prefix := rapid.SliceOfN(rapid.Custom(func(t *rapid.T) Op {
 		return Op{K: rapid.SampledFrom([]string{"addValue", "addParam", "addF2", "addF3", "addFA", "connect", "connect"}).Draw(t, "k"), A: rapid.IntRange(0, 13).Draw(t, "a"), B: rapid.IntRange(0, 13).Draw(t, "b"), V: rapid.IntRange(0, 9).Draw(t, "v")}
-	}), 0, 12).Draw(t, "prefix")
+	}), 4, 16).Draw(t, "prefix")
 	body := rapid.SliceOfN(rapid.Custom(func(t *rapid.T) Op {
 		return Op{K: rapid.SampledFrom(kinds).Draw(t, "k"), A: rapid.IntRange(0, 13).Draw(t, "a"), B: rapid.IntRange(0, 13).Draw(t, "b"), V: rapid.IntRange(0, 9).Draw(t, "v")}
 	}), min, 60).Draw(t, "ops")
@@ -323,6 +323,9 @@ func runCase(c Case, o *vh.Obs) *vh.Failure {
 				continue
 			}
 			i := op.A % len(ns)
+			if len(procs) > 0 && op.B%4 != 0 { // mostly read processors
+				i = procs[op.A%len(procs)]
+			}
 			may := map[int]bool{}
 			mayExec(i, may, map[int]bool{})
 			before := make([]int, len(ns))
